@@ -57,7 +57,7 @@ InDomain(d, fs) == WellFormed(d) /\ fs # <<>> /\ \A k \in 1..Len(fs) : FilterInD
 \* sequence), so an element of the span that an earlier replace removed no longer counts
 SpanHasSel(f, d, s, i) == \E x \in i..MatchEnd(d, i) : IsElem(d, x) /\ d[x].sel /\ (f.sel = "x" \/ d[x].n = f.sel)
                                                          /\ \E q \in 1..Len(s) : s[q] = <<x, 1>>
-Acts(f, d, s, i) == CASE f.sel = "none" -> TRUE
+Acts(f, d, s, i) == CASE f.sel \in {"none", "empty"} -> TRUE
                       [] f.act = "replace" -> SpanHasSel(f, d, s, i)
                       [] OTHER -> ~SpanHasSel(f, d, s, i)
 
